@@ -94,4 +94,70 @@ theorem is_power_of_two_total_f32 (lib : Libm) (x : Nat) (s : Bool) (m : Nat) (e
   have fD := sub_finite binary32 hf _ _ sL sR mL mR eL eR dL dR (le_trans (abs_rn_le_pow hr hem7 bD) pow127_le_Lmax32)
   exact is_power_of_two_bit_exact_f32 lib x s m e dx nm fL fR fD
 
+theorem Lmax_ge4' : 4 ≤ Lmax binary16 ∧ 4 ≤ Lmax binary64 := by
+  have h0 : Lmax binary16 = ((2 : ℚ) ^ 11 - 1) * 2 ^ (5 : ℤ) := rfl
+  have h2 : Lmax binary64 = ((2 : ℚ) ^ 53 - 1) * 2 ^ (971 : ℤ) := rfl
+  refine ⟨by rw [h0]; norm_num, ?_⟩
+  rw [h2]
+  have : (1 : ℚ) ≤ 2 ^ (971 : ℤ) := one_le_zpow₀ (by norm_num) (by norm_num)
+  have h3 : (4 : ℚ) ≤ 2 ^ 53 - 1 := by norm_num
+  calc (4 : ℚ) = 4 * 1 := by ring
+    _ ≤ (2 ^ 53 - 1) * 2 ^ (971 : ℤ) := mul_le_mul h3 this (by norm_num) (by linarith)
+
+/-- `next(x, up=True)` = nextafter(x, +inf), unconditional, float16 (positive normal x ≤ 2^14) and float64 (x ≤ 2^1022) -/
+theorem next_up_total_f16 (lib : Libm) (x : Nat) (m : Nat) (e : Int) (dx : decode binary16 x = .fin false m e)
+    (nm : 2 ^ 10 ≤ m) (bx : (m : ℚ) * 2 ^ e ≤ 2 ^ (14 : ℤ)) :
+    ∃ o : Nat, next_up_f16.eval lib [x] = some [o] ∧ isFiniteBits binary16 o = true ∧ toQ binary16 o = some (((m : ℚ) + 1) * 2 ^ e) := by
+  have hf : WF binary16 := ⟨by decide, by decide⟩
+  obtain ⟨b1, b2⟩ := decode_bounds binary16 hf x false m e dx
+  have hins := insRel1 (finite_of_decode _ _ _ _ _ dx) (toQ_fin _ x false m e dx)
+  have hv : valQ false m e = ((m : ℤ) : ℚ) * 2 ^ e := by simp [valQ]
+  rw [hv] at hins
+  have hq := (next_up_generated_f16 (rne (qf binary16 hf.hp)) (qf binary16 hf.hp) rfl (isRN_rne _) (m : ℤ) e
+    (by exact_mod_cast nm) (by exact_mod_cast b1) b2).1
+  have hb : |((m : ℤ) : ℚ) * 2 ^ e| ≤ 2 ^ (14 : ℤ) := by
+    rw [abs_of_nonneg (by positivity)]; exact_mod_cast bx
+  obtain ⟨o, h1, h2, h3⟩ := total1 next_up_f16 hf Lmax_ge4'.1 nextKinds next_kindsS.2.2.1 6 (by decide) (by decide)
+    [14] next_overflow_checks.1 lib [x] _ hins (hE_one hb) _ hq
+  have hfm : next_up_f16.fmt = binary16 := by decide
+  rw [hfm] at h2 h3
+  exact ⟨o, h1, h2, by simpa using h3⟩
+
+theorem next_up_total_f64 (lib : Libm) (x : Nat) (m : Nat) (e : Int) (dx : decode binary64 x = .fin false m e)
+    (nm : 2 ^ 52 ≤ m) (bx : (m : ℚ) * 2 ^ e ≤ 2 ^ (1022 : ℤ)) :
+    ∃ o : Nat, next_up_f64.eval lib [x] = some [o] ∧ isFiniteBits binary64 o = true ∧ toQ binary64 o = some (((m : ℚ) + 1) * 2 ^ e) := by
+  have hf : WF binary64 := ⟨by decide, by decide⟩
+  obtain ⟨b1, b2⟩ := decode_bounds binary64 hf x false m e dx
+  have hins := insRel1 (finite_of_decode _ _ _ _ _ dx) (toQ_fin _ x false m e dx)
+  have hv : valQ false m e = ((m : ℤ) : ℚ) * 2 ^ e := by simp [valQ]
+  rw [hv] at hins
+  have hq := (next_up_generated_f64 (rne (qf binary64 hf.hp)) (qf binary64 hf.hp) rfl (isRN_rne _) (m : ℤ) e
+    (by exact_mod_cast nm) (by exact_mod_cast b1) b2).1
+  have hb : |((m : ℤ) : ℚ) * 2 ^ e| ≤ 2 ^ (1022 : ℤ) := by
+    rw [abs_of_nonneg (by positivity)]; exact_mod_cast bx
+  obtain ⟨o, h1, h2, h3⟩ := total1 next_up_f64 hf Lmax_ge4'.2 nextKinds next_kindsS.2.2.2 6 (by decide) (by decide)
+    [1022] next_overflow_checks.2.2.1 lib [x] _ hins (hE_one hb) _ hq
+  have hfm : next_up_f64.fmt = binary64 := by decide
+  rw [hfm] at h2 h3
+  exact ⟨o, h1, h2, by simpa using h3⟩
+
+/-- `next(x, up=False)` on a negative normal x = −m·2^e ≥ −2^126 is nextafter(x, −inf) = −(m+1)·2^e (float32) -/
+theorem next_down_total_f32 (lib : Libm) (x : Nat) (m : Nat) (e : Int) (dx : decode binary32 x = .fin true m e)
+    (nm : 2 ^ 23 ≤ m) (bx : (m : ℚ) * 2 ^ e ≤ 2 ^ (126 : ℤ)) :
+    ∃ o : Nat, next_down_f32.eval lib [x] = some [o] ∧ isFiniteBits binary32 o = true ∧ toQ binary32 o = some (-(((m : ℚ) + 1) * 2 ^ e)) := by
+  have hf : WF binary32 := ⟨by decide, by decide⟩
+  obtain ⟨b1, b2⟩ := decode_bounds binary32 hf x true m e dx
+  have hins := insRel1 (finite_of_decode _ _ _ _ _ dx) (toQ_fin _ x true m e dx)
+  have hv : valQ true m e = -(((m : ℤ) : ℚ) * 2 ^ e) := by simp [valQ]
+  rw [hv] at hins
+  have hq := (next_up_generated (rne (qf binary32 hf.hp)) (qf binary32 hf.hp) rfl (isRN_rne _) (m : ℤ) e
+    (by exact_mod_cast nm) (by exact_mod_cast b1) b2).2
+  have hb : |(-(((m : ℤ) : ℚ) * 2 ^ e))| ≤ 2 ^ (126 : ℤ) := by
+    rw [abs_neg, abs_of_nonneg (by positivity)]; exact_mod_cast bx
+  obtain ⟨o, h1, h2, h3⟩ := total1 next_down_f32 hf Lmax32_ge4 nextKinds next_kindsS.2.1 6 (by decide) (by decide)
+    [126] next_overflow_checks.2.2.2 lib [x] _ hins (hE_one hb) _ hq
+  have hfm : next_down_f32.fmt = binary32 := by decide
+  rw [hfm] at h2 h3
+  exact ⟨o, h1, h2, by simpa using h3⟩
+
 end FAVerif.Props.C11
